@@ -168,9 +168,106 @@ def bins(N, ndim, ones):
     return h
 
 
+# ----------------------------------------------------------------------------- whole (tiny) ensemble solves
+# module-level callables: the ensemble deep-copies its nested solver (dill pickles these by reference)
+CURRENT = {}
+
+
+def COST(x):
+    return CURRENT['w'].cost(x)
+
+
+def PENALTY(x):
+    return CURRENT['w'].penalty(x)
+
+
+def CONSTRAINT(x):
+    return CURRENT['w'].constraint(x)
+
+
+def whole(ens_kind, member_kind, nbins, cfg, gens, step=False):
+    """a real LatticeSolver / BuckshotSolver solve through the public API: members are configured, deep-copied, started, run
+    (generation limit `gens`) and reduced by mystic; cost / penalty / constraints are uninterpreted, the strict box symbolic"""
+    dim = len(nbins)
+    n = 1
+    for b in nbins:
+        n *= b
+
+    def h(ctx):
+        import mystic.ensemble as me
+        import mystic.solvers as ms
+        w = L.World(ctx, dim, **S.CONFIGS[cfg])
+        for a, b in zip(w.lo, w.hi):
+            ctx.assume(lt(a, b))
+        CURRENT['w'] = w
+        ens = me.LatticeSolver(dim, nbins=list(nbins)) if ens_kind == 'lattice' else me.BuckshotSolver(dim, npts=n)
+        ens.SetNestedSolver(ms.NelderMeadSimplexSolver if member_kind == 'NM' else ms.PowellDirectionalSolver)
+        if member_kind == 'Powell':
+            S.install_brent_contract(ctx)
+        ens.SetStrictRanges(L.arr(w.lo), L.arr(w.hi))
+        ens.SetEvaluationLimits(generations=gens)
+        ens.SetTermination(L.never())
+        if w.c is not None:
+            ens.SetConstraints(CONSTRAINT)
+        if w.p is not None:
+            ens.SetPenalty(PENALTY)
+        if step:
+            ens.SetObjective(COST)
+            for k in range(gens + 1):
+                ens.Step()
+        else:
+            ens.Solve(COST)
+        mem = list(ens._allSolvers)
+        obs = [('as-many-members-as-requested', const(len(mem) == n and all(m is not None for m in mem)))]
+        if len(mem) != n or any(m is None for m in mem):
+            return obs
+        # every real cost call lies inside the strict box and at a constrained point
+        for k, c in enumerate(w.calls):
+            obs.append(('call-inside-strict-ranges[%d]' % k, w.inside(c)))
+            if w.c is not None:
+                obs.append(('call-at-a-constrained-point[%d]' % k, veq(c, w.C(c))))
+        Es, xs = [], []
+        centres = []
+        if ens_kind == 'lattice':
+            for idx in itertools.product(*[range(b) for b in nbins]):
+                centres.append([w.lo[i] + R(idx[i] + 0.5) * (w.hi[i] - w.lo[i]) / R(nbins[i]) for i in range(dim)])
+        for i, m in enumerate(mem):
+            E, x = L.scalar(m.bestEnergy), L.vec(m.bestSolution)
+            Es.append(E)
+            xs.append(x)
+            first = L.vec(m._stepmon._x[0]) if len(m._stepmon) else None
+            obs.append(('member-logged-its-start[%d]' % i, const(first is not None)))
+            if first is not None:
+                obs.append(('member-started-inside-strict-ranges[%d]' % i, w.inside(first)))
+                if ens_kind == 'lattice':
+                    obs.append(('member-started-at-the-centre-of-a-cell[%d]' % i, Or(*[veq(first, w.C(c)) for c in centres])))
+            if not isinf(E):
+                obs.append(('member-energy-is-cost+penalty-at-its-solution[%d]' % i, w.energy_is(E, x)))
+                obs.append(('member-solution-was-evaluated[%d]' % i, w.was_called_at(x)))
+            obs.append(('member-obeyed-the-generation-limit[%d]' % i, const(m.generations <= gens)))
+        if ens_kind == 'lattice' and n > 1:
+            firsts = [L.vec(m._stepmon._x[0]) for m in mem if len(m._stepmon)]
+            if w.c is None and len(firsts) == n:
+                obs.append(('one-member-per-cell', And(*[Not(veq(p, q)) for p, q in itertools.combinations(firsts, 2)])))
+        if all(not isinf(e) for e in Es):
+            mn = minv(*Es)
+            be = L.scalar(ens.bestEnergy)
+            obs.append(('best-energy-is-minimum-over-members', eq(be, mn)))
+            obs.append(('solution-is-a-best-members-solution', Or(*[And(eq(e, mn), veq(L.vec(ens.bestSolution), x)) for e, x in zip(Es, xs)])))
+        obs.append(('total-evaluations==real-cost-calls', eq(ens._total_evals, len(w.calls))))
+        obs.append(('sum-of-member-evaluations==real-cost-calls', eq(sumv([m.evaluations for m in mem]), len(w.calls))))
+        return obs
+    return h
+
+
 def instances(tier, seed):
     q = tier == 'quick'
     out = []
+    for ek, mk, nb, cfg, g in ([('lattice', 'NM', (2,), 'box', 1), ('lattice', 'NM', (2,), 'box+cons+pen', 1), ('buckshot', 'NM', (2,), 'box', 1)] if q else
+                               [('lattice', 'NM', (2,), 'box', 1), ('lattice', 'NM', (2,), 'box+cons+pen', 1), ('lattice', 'NM', (3,), 'box', 1),
+                                ('lattice', 'NM', (2, 1), 'box', 1), ('buckshot', 'NM', (2,), 'box', 1), ('buckshot', 'NM', (2,), 'box+cons+pen', 1),
+                                ('lattice', 'Powell', (2,), 'box', 1), ('lattice', 'NM', (2,), 'box', 2)]):
+        out.append(Instance('whole-solve/%s/%s/nbins=%s/%s/generations=%d' % (ek, mk, 'x'.join(map(str, nb)), cfg, g), whole(ek, mk, nb, cfg, g), qtimeout=6000))
     for ek in ('lattice', 'buckshot'):
         for mk in ('NM', 'DE'):
             for n in ((1, 2, 3) if q else (1, 2, 3, 4)):
